@@ -41,7 +41,7 @@ func selftestModelVsOs() error {
 		if h%2 == 1 {
 			cfg.WC = "memory"
 		}
-		g := NewGen(newRand(uint64(h)+1000), GenOpts{Cfg: cfg, NoAttrs: false})
+		g := NewGen(newRand(uint64(h)+1000), GenOpts{Cfg: cfg, NoAttrs: false, Late: true})
 		tree := Tree{}
 		var hist []string
 		for s := 0; s < 25; s++ {
